@@ -35,6 +35,8 @@ type Obligation struct {
 	Model  string
 	Query  string
 	posv   token.Pos
+	Vars   map[string]string // source-level name -> SMT term (for counterexample extraction)
+	Values map[string]string
 }
 
 // FnCtx is the per-function SMT context.
@@ -231,6 +233,14 @@ func (c *FnCtx) preamble(in map[string]bool) string {
 	return b.String()
 }
 
+func (c *FnCtx) queryWith(o *Obligation, extra []string) string {
+	in := c.cone(append([]string{o.Goal, o.Reach}, extra...)...)
+	var b strings.Builder
+	b.WriteString(c.preamble(in))
+	fmt.Fprintf(&b, "(assert %s)\n(assert (not %s))\n(check-sat)\n", o.Reach, o.Goal)
+	return b.String()
+}
+
 func (c *FnCtx) queryFor(o *Obligation) string {
 	in := c.cone(o.Goal, o.Reach)
 	var b strings.Builder
@@ -380,5 +390,7 @@ const prelude = `(set-option :produce-models true)
 (define-fun trem ((a Int) (b Int)) Int (- a (* b (tdiv a b))))
 (define-fun be32 ((a (Array Int Int)) (o Int)) Int (+ (* 16777216 (select a o)) (* 65536 (select a (+ o 1))) (* 256 (select a (+ o 2))) (select a (+ o 3))))
 (define-fun be16 ((a (Array Int Int)) (o Int)) Int (+ (* 256 (select a o)) (select a (+ o 1))))
+(define-fun isprefix ((pa (Array Int Int)) (po Int) (pl Int) (sa (Array Int Int)) (so Int) (sl Int)) Bool (and (<= pl sl) (forall ((j Int)) (=> (and (<= 0 j) (< j pl)) (= (select pa (+ po j)) (select sa (+ so j)))))))
+(define-fun byteseq ((pa (Array Int Int)) (po Int) (pl Int) (sa (Array Int Int)) (so Int) (sl Int)) Bool (and (= pl sl) (forall ((j Int)) (=> (and (<= 0 j) (< j pl)) (= (select pa (+ po j)) (select sa (+ so j)))))))
 (define-fun be64 ((a (Array Int Int)) (o Int)) Int (+ (* 4294967296 (be32 a o)) (be32 a (+ o 4))))
 `
